@@ -1,10 +1,12 @@
 #!/bin/bash
-# usage: mut.sh <file-rel> <line> <sed s-expr> <unit> [run]   -- apply a one-line mutation to /repo, run the unit, undo
-f=/repo/$1; ln=$2; ex=$3; unit=$4; run=$5
-cp "$f" /tmp/mut.bak
+# usage: mut.sh <file-rel> <line> <sed s-expr> <unit> [run]   -- apply a one-line mutation to a SCRATCH WORKTREE of /repo's HEAD
+# (the checks are pointed at it with VERIF_REPO; /repo itself is never touched), run the unit, drop the worktree
+W=/tmp/mutwt.$$
+git -C /repo worktree add -q --detach $W HEAD || exit 9
+trap 'git -C /repo worktree remove --force $W >/dev/null 2>&1' EXIT
+f=$W/$1; ln=$2; ex=$3; unit=$4; run=$5
+cp "$f" /tmp/mut.bak.$$
 sed -i "${ln}${ex}" "$f"
-if cmp -s "$f" /tmp/mut.bak; then echo "MUTATION DID NOT APPLY"; exit 3; fi
-diff /tmp/mut.bak "$f" | head -6
-cd /verif && python3 -m vf.dev $unit $run 2>&1 | grep -E "^==|FAILED" | head -12
-cp /tmp/mut.bak "$f"
-git -C /repo status --short | grep -v _build
+if cmp -s "$f" /tmp/mut.bak.$$; then echo "MUTATION DID NOT APPLY"; rm -f /tmp/mut.bak.$$; exit 3; fi
+diff /tmp/mut.bak.$$ "$f" | head -6; rm -f /tmp/mut.bak.$$
+cd /verif && VERIF_REPO=$W python3 -m vf.dev $unit $run 2>&1 | grep -E "^==|FAILED" | head -12
